@@ -165,6 +165,8 @@ def gen(cls, idx, rng, tier):
             for o in t["others"]:
                 tl[o["chip"]] = targets(rng, len(o["entries"]))
         t["calls"] = [("mts", tl)]
+        t["methods"] = rng.choice([None, None, ["rde"], ["oc"], ["oc", "rde"],
+                                   ["rde", "oc"]])
     return t
 
 
@@ -320,8 +322,13 @@ def run(case, ctx):
             return tl[chip] if isinstance(tl, dict) else tl
         what = "minimise_tables(targets=%r) on %d chips" % (target,
                                                             len(tables))
+        mnames = case.get("methods")
+        mkw = {} if not mnames else dict(methods=tuple(
+            {"rde": mods[1].minimise, "oc": mods[0].minimise}[n_]
+            for n_ in mnames))
+        what += " methods=%r" % (mnames,)
         try:
-            res = mods[2].minimise_tables(arg, tl)
+            res = mods[2].minimise_tables(arg, tl, **mkw)
         except MFE as e:
             ctx.hit("failure_report")
             chip = getattr(e, "chip", None)
@@ -329,15 +336,17 @@ def run(case, ctx):
                   (what, chip))
             # that chip's table must really be unable to reach its target
             try:
-                mods[2].minimise_table(list(tables[chip]), tgt(chip))
+                mods[2].minimise_table(list(tables[chip]), tgt(chip), **mkw)
             except MFE as e2:
                 check(e.final_length == e2.final_length and
                       e.target_length == tgt(chip), "failure-report-multi",
                       "%s: reports %r/%r, single-table call reports %r/%r" %
                       (what, e.target_length, e.final_length,
                        e2.target_length, e2.final_length))
-                judge_call(ctx, mods, descr[chip], "mt", tables[chip],
-                           tgt(chip), Routes, MFE, what + " [failed chip]")
+                if not mnames:
+                    judge_call(ctx, mods, descr[chip], "mt", tables[chip],
+                               tgt(chip), Routes, MFE,
+                               what + " [failed chip]")
                 continue
             check(False, "failure-but-single-succeeds",
                   "%s failed for chip %r whose table minimises alone" %
